@@ -46,8 +46,8 @@ def family(isa, rng, b):
         return o
 
     o = call(b, "d(b)")
-    if o["k"] == "raised" and o["exc"] == "Timeout":
-        return ev
+    if o["k"] == "raised":
+        return ev       # C17's subject; nothing to relate (and a call that hangs is not repeated 8 times)
     if o["k"] == "instr":
         n = o["len"]
         if 1 <= n <= len(b):
@@ -80,8 +80,14 @@ def run_chunk(args):
     rng = random.Random("c05/%s/%s/%d/%d" % (isa_name, mode, lo, seed))
     specs = list(enumerate(isa.specs()))[lo:hi]
     traces = []
+    hung = {}
     for src, b in c17.gen_inputs(isa, rng, specs, fillings, nrandom):
+        sp = src.rsplit(":", 1)[0]
+        if hung.get(sp, 0) >= c17.MAX_TIMEOUTS_PER_SPEC:
+            continue            # two inputs of this spec already ran into the watchdog
         ev = family(isa, rng, b)
+        if any(e["out"].get("exc") == "Timeout" for e in ev):
+            hung[sp] = hung.get(sp, 0) + 1
         traces.append({"kind": "c05", "m": "%s/%s" % (isa_name, mode), "maxlen": isa.maxlen, "src": src, "ev": ev})
     return {"isa": isa_name, "mode": mode, "maxlen": isa.maxlen, "traces": traces}
 
